@@ -378,8 +378,9 @@ def main(argv=None) -> int:
                 except Exception:
                     ctx.notes.append("search crashed: " + traceback.format_exc()[-1500:])
             open_keys = {k["key"] for k in load_known() if k.get("property") == prop and k.get("status", "open") == "open"}
-            fresh = [v for v in found if v.key not in open_keys]
             violations += found
+            # a concrete new violation from the correspondence's own oracles explains the break as well as one from search
+            fresh = [v for v in violations if v.key not in open_keys and v.found_input]
             if not fresh:  # nothing new explains the broken obligation: it stays reported
                 violations.append(Violation(
                     key="unproved:" + ",".join(sorted({b.name for b in broken}))[:300],
